@@ -196,6 +196,10 @@ def run(ctx):
                               "equal_values_two_owners_part", seed_base=830000)
     engine_check.scenario_run(ctx, "scen_engine.twin_builder", MONITORS + [M.mon_c15], nontrivial, RULE, 24, 400, 5,
                               "twin_users_groups_names_part", seed_base=880000)
+    # a requester whose GROUP membership changes between the requests of one connection (SLUGS plug-in): the grant of a
+    # policy's group section follows the directory as it is at each request (the used-vs-fresh-connection part of C11)
+    import props.c11 as c11
+    c11.changing_directory_part(ctx, prefix="c03")
     fcells, fgranted = file_phase(ctx)
     ctx.coverage["policy_file_decision_cells"] = fcells
     ctx.coverage["policy_file_decision_cells_allowed"] = fgranted
@@ -209,6 +213,12 @@ def search(ctx, broken):
 
 def replay(ctx, rep):
     r = rep.get("replay", rep)
+    if r.get("kind") == "changing-directory":
+        import props.c11 as c11
+        fails, _k = c11.changing_directory_case(r["seed"])
+        for sig, what in fails:
+            print("  %s: %s" % (sig, what[:600]))
+        return not fails
     if r.get("kind") == "policy-file":
         import tempfile
         import json as _json
